@@ -194,7 +194,12 @@ impl Prop for C07 {
         let mode = if subsets {
             Mode::AllSubsets(inspections(rng))
         } else if mode_pick == 0 {
-            let v = rng.pick(NUM_VARS).to_string();
+            // a numeric variable, a string variable, or a cell of a one-dimensional array
+            let v = match rng.below(5) {
+                0 => rng.pick(STR_VARS).to_string(),
+                1 => format!("C({})", rng.below(10)),
+                _ => rng.pick(NUM_VARS).to_string(),
+            };
             Mode::AssignAtStop(v, rng.below(9) as f64)
         } else if all {
             Mode::AllSingletons(inspections(rng))
@@ -316,18 +321,24 @@ impl Prop for C07 {
                 None
             }
             Mode::AssignAtStop(var, val) => {
-                let assign_text = format!("{} = {}", var, val);
+                // the same assignment as an immediate line and as a statement
+                let (target, e) = if let Some(open) = var.find('(') {
+                    let idx: f64 = var[open + 1..var.len() - 1].parse().unwrap_or(0.0);
+                    (LValue { name: var[..open].to_string(), index: Some(vec![Expr::Num(idx)]) }, Expr::Num(*val))
+                } else if var.ends_with('$') {
+                    (LValue { name: var.clone(), index: None }, Expr::Str(format!("s{}", val)))
+                } else {
+                    (LValue { name: var.clone(), index: None }, Expr::Num(*val))
+                };
+                let with = Stmt::Let { kw: false, target, e };
+                let assign_text = print_stmt(&with);
                 let p = match run_once(&c.prog, &c.prog.lines, &[], Some(&assign_text), cap, ctx) {
                     Ok(o) => o,
+                    // the assignment itself failed at the prompt (e.g. a cell of an array that has another
+                    // arity): at the prompt that is an error message, in a program it ends the run — the
+                    // statement compares assignments that succeed
+                    Err(v) if v.class == "C07/harness" && v.fingerprint.contains("assignment at STOP failed") => return None,
                     Err(v) => return Some(v),
-                };
-                let with = Stmt::Let {
-                    kw: false,
-                    target: LValue {
-                        name: var.clone(),
-                        index: None,
-                    },
-                    e: Expr::Num(*val),
                 };
                 let lines2: Vec<Line> = c
                     .prog
